@@ -28,6 +28,7 @@ import Apko.Proofs.Lemmas.FormatsSortComplete
 import Apko.Proofs.Lemmas.FormatsSortNodup
 import Apko.Proofs.Lemmas.FormatsNoPanic
 import Apko.Proofs.Lemmas.FormatsSortIdem
+import Apko.Proofs.Lemmas.FormatsIdbReread
 
 namespace Apko.C16
 open Apko Apko.Formats
@@ -476,5 +477,22 @@ theorem sortTarHeaders_idempotent (hs out : List FileRec) (ht : treeOK hs = true
     (h : sortHeaders hs = some out) :
     sortHeaders out = some out ∧ sortHeaders (hs.filter (emitted hs)) = some out :=
   ⟨sortHeaders_idem hs (treeOK_spec hs ht) hn out h, by rw [← h]; exact sortHeaders_kept hs (treeOK_spec hs ht)⟩
+
+/-! ## `idb_write_read`, the part that holds -/
+
+/-- `idb_write_read_partial`: for a well-formed package whose header list is a tree with distinct names,
+the db text that was written is read, and writing what was read gives the same text *except for the
+`i:` line (F16a-idb) and the `Z:` lines (F16c)*: same package lines, same `F:`/`M:`/`R:`/`a:` lines in the
+same order (`stripIZ` removes the lines that start with `i` or `Z`). -/
+theorem idb_write_read_partial (c : Codec) (hc : c.Lawful) (ip : IPkg) (t : Text)
+    (hr : renderInstalled c idbRows ip = .ok t) (hwf : WFIPkg ip = true) (htree : treeOK ip.files = true)
+    (hn : namesNodup ip.files = true) (hfit : linesFit defaultTokenMax (rawLines t) = true) :
+    ∃ q t', parseInstalled c idbCases idbGuarded t = .ok [q] ∧ renderInstalled c idbRows q = .ok t' ∧
+      stripIZ t' = stripIZ t := by
+  obtain ⟨pre, post, htab⟩ := idbTableOK_spec idbRows idbCases field_inverse_idb_table
+  obtain ⟨t', h1, h2⟩ := renderInstalled_reread_text c hc idbCases idbRows pre post htab ip hwf
+    (treeOK_spec ip.files htree) hn t hr
+  have h := idb_read_write c hc [ip] t (by simp [renderInstalledAll, hr, Res.bind]) (by simpa using hwf) hfit
+  exact ⟨readBack ip, t', by simpa using h, h1, h2⟩
 
 end Apko.C16
